@@ -316,6 +316,13 @@ var trafficSets = []*ConvSet{
 	{Name: "tcp-idle", Interleaves: single, Convs: []ConvSpec{
 		tcp("t", "10.0.5.1", 42000, "10.0.5.2", 22, 123456, 654321, "fin-c", cm("one"), Msg{S2C, "TWO", 4 * time.Minute}, Msg{C2S, "three", 4 * time.Minute}),
 	}},
+	// three UDP flows between the same hosts whose port pairs have the same XOR (one bucket of the UDP
+	// flow table): two of them fall idle and expire while the first stays active and goes on
+	{Name: "udp-bucket-expiry", Interleaves: []string{"rr", "seq-rev"}, Convs: []ConvSpec{
+		udp("a", "10.0.6.1", 40000, "10.0.6.2", 53, cm("a0"), Msg{S2C, "A1", 2 * time.Minute}, Msg{C2S, "a2", 2 * time.Minute}, Msg{S2C, "A3", 2 * time.Minute}, Msg{C2S, "a4", 2 * time.Minute}, Msg{S2C, "A5", 2 * time.Minute}),
+		udp("b", "10.0.6.1", 40001, "10.0.6.2", 52, cm("b0"), sm("B1")),
+		udp("c", "10.0.6.1", 40002, "10.0.6.2", 55, cm("c0")),
+	}},
 	// snapshot sets: a filler of short closed connections large enough to make the importer write
 	// a reassembly snapshot, placed in the middle of / before the interesting conversation
 	{Name: "snap-mid", Huge: true, Step: time.Millisecond, Interleaves: []string{"wrap:5"}, Convs: withFiller(
@@ -330,6 +337,10 @@ var trafficSets = []*ConvSet{
 	// the next capture
 	{Name: "snap-trigger", Huge: true, Step: time.Millisecond, Interleaves: []string{"mid:1:99995:7"}, Convs: withFiller(
 		udp("u", "10.0.1.1", 5354, "10.0.1.2", 53, cm("d0"), sm("d1"), cm("d2"), sm("d3"), cm("d4"), sm("d5"), cm("d6"), sm("d7"), cm("d8"), sm("d9")))},
+	// the observed flow is more than five minutes old when the snapshot is written and still active
+	// (a datagram every two minutes); it continues in the next capture
+	{Name: "snap-longlived", Huge: true, Step: time.Millisecond, Interleaves: []string{"wrap:4"}, Convs: withFiller(
+		udp("u", "10.0.1.1", 5355, "10.0.1.2", 53, cm("d0"), Msg{S2C, "d1", 2 * time.Minute}, Msg{C2S, "d2", 2 * time.Minute}, Msg{S2C, "d3", 2 * time.Minute}, cm("d4"), sm("d5")))},
 	{Name: "snap-udp-mid", Huge: true, Step: time.Millisecond, Interleaves: []string{"wrap:2"}, Convs: withFiller(
 		udp("u", "10.0.1.1", 5353, "10.0.1.2", 53, cm("qry"), sm("answ"), cm("q2"), sm("a2")))},
 }
